@@ -187,6 +187,10 @@ fn borrowed_buffered(g: &mut Gen, st: &mut Stats) -> CaseResult {
     #[derive(Debug, PartialEq, Serialize, Deserialize)] #[serde(tag = "t")] enum I<'a> { A { #[serde(borrow)] b: BB<'a>, #[serde(borrow)] s: &'a str }, Z }
     #[derive(Debug, PartialEq, Serialize, Deserialize)] struct In<'a> { #[serde(borrow)] b: BB<'a>, #[serde(borrow)] s: &'a str }
     #[derive(Debug, PartialEq, Serialize, Deserialize)] struct F<'a> { id: u8, #[serde(borrow, flatten)] inner: In<'a> }
+    // keys that borrow: a flattened catch-all map with &str keys (the keys reach it through serde's buffer as identifiers),
+    // a plain map with &str keys, an enum whose variant names are matched against borrowed identifiers
+    #[derive(Debug, PartialEq, Serialize, Deserialize)] struct Rest<'a> { id: u8, #[serde(borrow, flatten)] rest: std::collections::BTreeMap<&'a str, u64> }
+    #[derive(Debug, PartialEq, Serialize, Deserialize)] struct Keys<'a> { #[serde(borrow)] m: std::collections::BTreeMap<&'a str, &'a str> }
     st.eval();
     let sv = g.string(20);
     let bv = g.bytes(20);
@@ -208,7 +212,11 @@ fn borrowed_buffered(g: &mut Gen, st: &mut Stats) -> CaseResult {
         st.class($label);
     }}}
     scoped("borrowed-buffered", || {
-        match g.below(6) {
+        match g.below(8) {
+            6 => { let ks: Vec<String> = (0 .. 1 + g.below(3)).map(|i| format!("k{}{}", i, g.string(6))).collect(); let m: std::collections::BTreeMap<&str, u64> = ks.iter().map(|k| (k.as_str(), g.u64())).collect();
+                   rt!("borrowed/flattened catch-all map with &str keys", Rest, Rest { id: g.u8(), rest: m.clone() }, |x| x.rest.keys().map(|k| (k.as_ptr(), k.len())).collect()) }
+            7 => { let ks: Vec<String> = (0 .. g.below(4)).map(|i| format!("{}{}", g.string(5), i)).collect(); let m: std::collections::BTreeMap<&str, &str> = ks.iter().map(|k| (k.as_str(), s)).collect();
+                   rt!("borrowed/map with &str keys and values", Keys, Keys { m: m.clone() }, |x| x.m.iter().flat_map(|(k, v)| [(k.as_ptr(), k.len()), (v.as_ptr(), v.len())]).collect()) }
             0 => rt!("borrowed/plain struct", P, P { b, s, n: g.u8() }, |x| vec![(x.b.0.as_ptr(), x.b.0.len()), (x.s.as_ptr(), x.s.len())]),
             1 => rt!("borrowed/untagged bytes", U, U::B(b), |x| match x { U::B(b) => vec![(b.0.as_ptr(), b.0.len())], _ => vec![] }),
             2 => rt!("borrowed/untagged str", U, U::S(s), |x| match x { U::S(s) => vec![(s.as_ptr(), s.len())], _ => vec![] }),
@@ -497,6 +505,25 @@ fn interleaved(g: &mut Gen, st: &mut Stats) -> CaseResult {
             ensure!(&got == v, "interleaved-value", "value {} read back as {:?}, written {:?} (stream {}, reading sides {:?})", i, got, v, short_hex(&want), side_r);
         }
         ensure!(de.decoder().position() == want.len(), "interleaved-position", "after reading all {} values the decoder stands at {} of {}", n, de.decoder().position(), want.len());
+        // the same Deserializer on the next input (a long-lived reader swaps the decoder in place): nothing of the previous
+        // input may be remembered - the second input holds the same values, re-framed where the types allow it
+        {
+            let mut second = Vec::new();
+            for v in &vals {
+                let b = match v { V::U(x) => minicbor::to_vec(x), V::S(x) => minicbor::to_vec(x), V::T(x) => minicbor::to_vec(x), V::O(x) => minicbor::to_vec(x), V::L(x) => minicbor::to_vec(x), V::N(x) => minicbor::to_vec(x) }.map_err(|e| vcore::Fail::new("native-encode", e.to_string()))?;
+                match (v, parse(&b)) { (V::L(_), Ok((item, _))) => second.extend_from_slice(&reframe(g, &item, true, false, true).encode()), _ => second.extend_from_slice(&b) }
+            }
+            second.push(0xff); // a stray break behind the items: whoever looks for breaks in the wrong place will find this one
+            *de.decoder_mut() = minicbor::Decoder::new(&second);
+            for (i, (v, bridge)) in vals.iter().zip(&side_r).enumerate() {
+                macro_rules! get2 { ($t:ty, $mk:expr) => {{ let x: Result<$t, String> = if *bridge { <$t>::deserialize(&mut de).map_err(|e| e.to_string()) } else { de.decoder_mut().decode().map_err(|e| e.to_string()) };
+                    match x { Ok(x) => $mk(x), Err(e) => fail!("reused-deserializer", "second input {} on the same Deserializer (first input {}): value {} ({:?}, {}) rejected: {}", short_hex(&second), short_hex(&want), i, v, if *bridge { "bridge" } else { "native" }, e) } }} }
+                let got = match v { V::U(_) => get2!(u64, V::U), V::S(_) => get2!(String, V::S), V::T(_) => get2!((u8, bool, i32), V::T), V::O(_) => get2!(Option<String>, V::O), V::L(_) => get2!(Vec<u16>, V::L), V::N(_) => get2!((), V::N) };
+                ensure!(&got == v, "reused-deserializer", "second input {} on the same Deserializer (first input {}): value {} read as {:?}, it is {:?} ({})", short_hex(&second), short_hex(&want), i, got, v, if *bridge { "bridge" } else { "native" });
+            }
+            ensure!(de.decoder().position() == second.len() - 1, "reused-deserializer", "second input: the decoder stands at {} of {}", de.decoder().position(), second.len() - 1);
+            de = minicbor_serde::Deserializer::from({ let mut d = minicbor::Decoder::new(&want); d.set_position(want.len()); d });
+        }
         let d = de.into_decoder();
         ensure!(d.position() == want.len(), "interleaved-position", "into_decoder() stands at {} of {}", d.position(), want.len());
         Ok(())
